@@ -358,7 +358,13 @@ open Furiko.CronRec in
 /-- **cron_converges**: for every server state, every work item of the cron reconciler and every
 finite pattern of failed create calls (E-ErrNotApplied), the retry loop ends with a successful pass
 and the server's Job collection is EXACTLY the one a single fault-free pass produces: the Job of
-(JobConfig, schedule time) exists once (or the schedule was skipped by policy in both runs). -/
+(JobConfig, schedule time) exists once (or the schedule was skipped by policy in both runs).
+
+The fault alphabet is what the property names — a call that FAILS (server error, conflict, timeout;
+`cronSync`'s `fault = true` injects `.err`).  An admission refusal (422 Invalid) is not a failure in
+this sense: `ExecutionControl.CreateJob` swallows it and the pass returns nil, so the retry loop
+never sees it.  When the refusal is itself transient — the webhook process' JobConfig cache lags —
+the schedule time is lost: `cron_invalid_answer_drops_schedule_witness` (known finding F34). -/
 theorem cron_converges (e : CronEnv) (cfgName : Str.Str) (t : Int)
     (hk : splitKey e.name = .ok (cfgName, t))
     (hsub : ∀ c, e.lookup e.ns cfgName = some c → c.subst ≠ none) (fs : List Bool) (api : Api) :
@@ -378,6 +384,25 @@ example :
     (runLoop (cronSync e) 4 [true, true, true] []).2 = true ∧
     ((runLoop (cronSync e) 4 [true, true, true] []).1.map (·.name)) = ["a.5-100".toList] ∧
     (cronSync e [] true) = ([], false) := by decide
+
+open Furiko.CronRec Furiko.Props.C02 in
+/-- KNOWN FINDING F34 (environment audit G3; replayed on the real controllers + webhooks by the
+`system` scenarios `f34-webhook-cache-lag-drops-schedule` / `f34-webhook-stale-uid-drops-schedule`,
+monitor `converges-same-outcome`).  The admission webhooks are another process with their own
+JobConfig informer; when the owner JobConfig of the new Job is not (yet) in THAT cache, or is there
+with another UID, the create is answered 422 Invalid.  In the model: the create of the work item
+`(a.5, 100)` is answered `.invalid` — the pass reports ok (`SyncOne` returns nil, one
+`CreateJobFailed` event), the server has no Job, and since the sync succeeded `work` Forgets the key
+(`retry_success_forgets`): nothing ever asks again, although the very next attempt — the webhook's
+cache having caught up — creates the Job.  "Once calls succeed again … every due schedule time has
+its Job" therefore fails for this transient refusal; `cron_converges` does not cover it because
+`Invalid` is not in its fault alphabet. -/
+theorem cron_invalid_answer_drops_schedule_witness :
+    let e : CronEnv := { now := 0, lookup := listerGet [cfgV1], active := fun _ => 0, mx := some 20, ns := "ns".toList, name := "a.5.100".toList }
+    let o := syncOne e.now [] e.lookup e.active e.mx (fun _ _ => false) .invalid e.ns e.name
+    o.result = .ok ∧ o.api = [] ∧ o.events = [.createFailed] ∧ o.resp = some .invalid ∧
+    ((cronSync e [] false).1.map (·.name)) = ["a.5-100".toList] ∧ (cronSync e [] false).2 = true := by
+  decide
 
 /-! ## 4. Instance (partial): the job-queue per-config pass -/
 
